@@ -224,6 +224,14 @@ func (proof *RangeProof) _computeRootHash() (rootHash []byte, treeEnd bool, err 
 	if len(proof.InnerNodes)+1 != len(proof.Leaves) {
 		return nil, false, errors.Wrap(ErrInvalidProof, "InnerNodes vs Leaves length mismatch, leaves should be 1 more.")
 	}
+	if err := proof.LeftPath.validate(false); err != nil {
+		return nil, false, err
+	}
+	for _, inners := range proof.InnerNodes {
+		if err := inners.validate(true); err != nil {
+			return nil, false, err
+		}
+	}
 
 	// Start from the left path and prove each leaf.
 
